@@ -165,6 +165,12 @@ func (g *Generator) generateConstantValueWrapper(fieldName string, t *parser.Typ
 		return fmt.Sprintf("%s%s = %s;\n", contents, fieldName, "null")
 	}
 
+	if _, ok := value.(parser.Identifier); ok {
+		// The value names another constant, whatever its type: refer to it.
+		_, val := g.generateConstantValueRec(t, value, indent)
+		return fmt.Sprintf("%s%s = %s;\n", contents, fieldName, val)
+	}
+
 	if underlyingType.IsPrimitive() || g.Frugal.IsEnum(underlyingType) {
 		_, val := g.generateConstantValueRec(t, value, indent)
 		return fmt.Sprintf("%s%s = %s;\n", contents, fieldName, val)
